@@ -192,9 +192,18 @@ def _gen_of(fi, e):
 
 def _nest(fi, depth):
     """The unique chain of `depth` nested for-loops at the top level of fi; returns the list of For nodes."""
-    cur = fi.node.body
+    def flat(stmts):
+        out = []
+        for x in stmts:
+            if isinstance(x, ast.With):
+                out.extend(flat(x.body))
+            else:
+                out.append(x)
+        return out
+    cur = flat(fi.node.body)
     chain = []
     for d in range(depth):
+        cur = flat(cur)
         fors = [s for s in cur if isinstance(s, ast.For)]
         if len(fors) != 1:
             raise AnalysisError('%s: expected one for-loop at nesting depth %d, found %d' % (fi.qualname, d + 1, len(fors)))
@@ -587,10 +596,114 @@ def _step1(r, idx, fi):
         r.note('step 1 does not reduce rows by their minimum (net %+g); harmless for optimality, slower' % net)
 
 
+
+def _snapshot_managers(idx, fi):
+    """with-statements of fi whose context manager lends out solver vectors and restores them on exit.
+
+    -> [(with node, {alias: expression in terms of fi's self}, [restored attribute names])] for managers of the form
+       class M: __init__(self, solver): self.solver = solver
+                __enter__: self.saved_x = list(self.solver.x) ...; return (self.solver.x, ...)
+                __exit__:  self.solver.x[:] = self.saved_x ...; return False"""
+    out = []
+    S = fi.params[0]
+    for w in walk_own(fi.node):
+        if not isinstance(w, ast.With) or len(w.items) != 1:
+            continue
+        it = w.items[0]
+        call = it.context_expr
+        if not (isinstance(call, ast.Call) and isinstance(call.func, ast.Name) and len(call.args) == 1 and cm.is_name(call.args[0], S)):
+            continue
+        kind, ci = idx.resolve_name(fi.module, call.func.id)
+        if kind != 'class' or not {'__init__', '__enter__', '__exit__'} <= set(ci.methods):
+            continue
+        init, ent, ext = ci.methods['__init__'], ci.methods['__enter__'], ci.methods['__exit__']
+        ms = init.params[0]
+        holder = [n.targets[0].attr for n in walk_own(init.node) if isinstance(n, ast.Assign) and len(n.targets) == 1
+                  and cm.is_self_attr(n.targets[0], ms) and cm.is_name(n.value, init.params[1] if len(init.params) > 1 else None)]
+        if len(holder) != 1:
+            continue
+        h = holder[0]
+
+        def solver_attr(e, selfname):
+            if isinstance(e, ast.Attribute) and cm.is_self_attr(e.value, selfname, h):
+                return e.attr
+            return None
+        es = ent.params[0]
+        saved = {}
+        for n in walk_own(ent.node):
+            if isinstance(n, ast.Assign) and len(n.targets) == 1 and cm.is_self_attr(n.targets[0], es) \
+                    and isinstance(n.value, (ast.Call, ast.Subscript)):
+                src = n.value.args[0] if isinstance(n.value, ast.Call) and nf.callee_name(n.value) in ('list', 'copy') and n.value.args else \
+                    (n.value.value if isinstance(n.value, ast.Subscript) and isinstance(n.value.slice, ast.Slice) else None)
+                a = solver_attr(src, es) if src is not None else None
+                if a:
+                    saved[n.targets[0].attr] = a
+        rets = lib.returns_of(ent.node)
+        if len(rets) != 1:
+            continue
+        rv = rets[0].value
+        lent = [solver_attr(e, es) for e in (rv.elts if isinstance(rv, ast.Tuple) else [rv])]
+        if None in lent:
+            continue
+        xs = ext.params[0]
+        restored = []
+        for n in walk_own(ext.node):
+            if isinstance(n, ast.Assign) and len(n.targets) == 1 and isinstance(n.targets[0], ast.Subscript) \
+                    and isinstance(n.targets[0].slice, ast.Slice) and cm.is_self_attr(n.value, xs):
+                a = solver_attr(n.targets[0].value, xs)
+                if a and saved.get(n.value.attr) == a:
+                    restored.append(a)
+        xr = lib.returns_of(ext.node)
+        if any(nf.const_value(x.value, None) is True for x in xr):
+            continue          # swallows exceptions: not a plain restore
+        vars_ = it.optional_vars
+        names = [e.id for e in vars_.elts] if isinstance(vars_, ast.Tuple) and all(isinstance(e, ast.Name) for e in vars_.elts) else \
+            ([vars_.id] if isinstance(vars_, ast.Name) else None)
+        if names is None or len(names) != len(lent):
+            continue
+        alias = {nm: ast.Attribute(value=ast.Name(id=S, ctx=ast.Load()), attr=a, ctx=ast.Load()) for nm, a in zip(names, lent)}
+        out.append((w, alias, restored))
+    return out
+
+
+def _covers_false_at_step2_entry(idx, meth):
+    """Both cover vectors are all False whenever step 2 starts: compute initialises them to all False and step 1 (the only
+    predecessor of step 2) and its helpers never store into them."""
+    comp = idx.func(M + '.compute')
+    S = comp.params[0]
+    for f in ('row_covered', 'col_covered'):
+        inits = [n.value for n in walk_own(comp.node) if isinstance(n, ast.Assign) and any(cm.is_self_attr(t, S, f) for t in n.targets)]
+        if len(inits) != 1:
+            return False
+        v = inits[0]
+        allf = (isinstance(v, ast.ListComp) and nf.const_value(v.elt, None) is False) or \
+            (isinstance(v, ast.BinOp) and isinstance(v.op, ast.Mult) and isinstance(v.left, ast.List) and len(v.left.elts) == 1
+             and nf.const_value(v.left.elts[0], None) is False)
+        if not allf:
+            return False
+    work, seen = ['__step1'], []
+    while work:
+        m = work.pop()
+        if m in seen or m not in meth:
+            continue
+        seen.append(m)
+        sn = meth[m].params[0] if meth[m].params else None
+        for n in walk_own(meth[m].node):
+            if isinstance(n, ast.Call) and cm.is_self_attr(n.func, sn) and n.func.attr in meth:
+                work.append(n.func.attr)
+            if isinstance(n, (ast.Subscript, ast.Attribute)) and isinstance(n.ctx, ast.Store):
+                base = n.value if isinstance(n, ast.Subscript) else n
+                if isinstance(base, ast.Attribute) and base.attr in ('row_covered', 'col_covered'):
+                    return False
+    return True
+
 # ------------------------------------------------------------------------ step 2
 def _step2(r, idx, fi):
     S = fi.params[0]
     env = _inline(fi)
+    managers = _snapshot_managers(idx, fi)
+    for w_, alias_, restored_ in managers:
+        env.update(alias_)
     lo, li = _nest(fi, 2)
     i, j = lo.target.id, li.target.id
     label = 'Munkres.__step2'
@@ -641,6 +754,15 @@ def _step2(r, idx, fi):
     cc = [c for c in lib.calls_named(fi.node, '__clear_covers') if cm.is_self_attr(c.func, S)]
     construct = label + ': covers cleared'
     cfg = cfg_of(fi.node)
+    inside = [(w_, restored_) for w_, alias_, restored_ in managers if any(x is lo for x in ast.walk(w_))]
+    if not cc and inside and {'row_covered', 'col_covered'} <= set(inside[0][1]):
+        if _covers_false_at_step2_entry(idx, idx.cls(M).methods):
+            r.ok(construct, 'the sweep borrows the cover vectors inside a snapshot/restore context manager and both are all False '
+                 'when step 2 starts (compute initialises them, step 1 never writes them): restoring equals clearing', lib.loc(fi, inside[0][0]))
+        else:
+            r.undecided(construct, 'covers are restored by a context manager, but they are not provably all False at the entry of step 2',
+                        lib.loc(fi, inside[0][0]))
+        return
     if not cc and cm.calls_unreviewed(idx, fi.node):
         r.undecided(construct, 'no call of __clear_covers; un-inlined helpers %s are called' % cm.calls_unreviewed(idx, fi.node), fi.loc)
     elif not cc:
@@ -977,21 +1099,50 @@ def _scans(r, idx, meth):
             raise AnalysisError('%s: parameters changed' % name)
         fi, bind = outer_fi, {}
         body = [x for x in outer_fi.node.body if not (isinstance(x, ast.Expr) and isinstance(x.value, ast.Constant))]
+        pre = {}
+        while len(body) > 1 and isinstance(body[0], ast.Assign) and len(body[0].targets) == 1 and isinstance(body[0].targets[0], ast.Name):
+            pre[body[0].targets[0].id] = nf.subst(body[0].value, pre)      # temporaries handed to the shared helper
+            body = body[1:]
         if len(body) == 1 and isinstance(body[0], ast.Return) and isinstance(body[0].value, ast.Call) \
                 and cm.is_self_attr(body[0].value.func, outer_fi.params[0]) and body[0].value.func.attr in meth \
                 and not body[0].value.keywords:
             callee = meth[body[0].value.func.attr]          # delegation to a shared scan helper
-            cp = callee.params[1:]
+            cp = callee.params if callee.is_static else callee.params[1:]
             if len(cp) != len(body[0].value.args):
                 raise AnalysisError('%s: delegation `%s` cannot be bound' % (name, short(body[0])))
-            fi, bind = callee, dict(zip(cp, body[0].value.args))
-        S = fi.params[0]
+            fi, bind = callee, {k_: nf.subst(v_, pre) for k_, v_ in zip(cp, body[0].value.args)}
+        S = outer_fi.params[0]
         p = outer_fi.params[1]
         env = dict(_inline(fi))
         env.update(bind)
-        if bind and S != outer_fi.params[0]:
-            env[S] = ast.Name(id=outer_fi.params[0], ctx=ast.Load())
-            S = outer_fi.params[0]
+        if bind and not fi.is_static and fi.params and fi.params[0] != S:
+            env[fi.params[0]] = ast.Name(id=S, ctx=ast.Load())
+        # `for k, cell in enumerate(LINE)`: a scan of a row of self.marked or of a generated column
+        tops = [x for x in fi.node.body if isinstance(x, ast.For)]
+        if len(tops) == 1 and cm.is_call_to(tops[0].iter, 'enumerate', 1) and isinstance(tops[0].target, ast.Tuple) \
+                and len(tops[0].target.elts) == 2 and all(isinstance(t_, ast.Name) for t_ in tops[0].target.elts):
+            lp0 = tops[0]
+            kv, cv = [t_.id for t_ in lp0.target.elts]
+            line = _sub(lp0.iter.args[0], env)
+            if isinstance(line, ast.Name):
+                line = _sub(cm.deref(fi, line), env)
+            rng = None
+            if isinstance(line, ast.Subscript) and cm.is_self_attr(line.value, S, 'marked'):
+                env[cv] = ast.Subscript(value=line, slice=ast.Name(id=kv, ctx=ast.Load()), ctx=ast.Load())
+                rng = nf.pat('range(%s.n)' % S)          # a row of the n x n mask matrix
+            elif isinstance(line, (ast.GeneratorExp, ast.ListComp)) and len(line.generators) == 1 and not line.generators[0].ifs \
+                    and isinstance(line.generators[0].target, ast.Name):
+                g_ = line.generators[0]
+                env[cv] = nf.subst(line.elt, {g_.target.id: ast.Name(id=kv, ctx=ast.Load())})
+                rng = g_.iter
+            if rng is None:
+                raise AnalysisError('%s: scanned line `%s` not recognised' % (name, short(line)))
+            shim = ast.For(target=ast.Name(id=kv, ctx=ast.Store()), iter=rng, body=lp0.body, orelse=[])
+            ast.copy_location(shim, lp0)
+            ast.fix_missing_locations(shim)
+            fi_body_for = shim
+        else:
+            fi_body_for = None
         label = 'Munkres.%s' % name
         sr = _single_return(fi)
         if sr is not None and cm.is_call_to(sr.value, 'next') and sr.value.args and _gen_of(fi, sr.value.args[0]) is not None \
@@ -1031,10 +1182,13 @@ def _scans(r, idx, meth):
                 r.violation(construct, 'the scan %s' % ('does not select cells that hold a %s' % word if not t_hit else
                                                        'selects cells that are not a %s' % word), fi.loc)
             continue
-        (lp,) = _nest(fi, 1)
+        if fi_body_for is not None:
+            lp = fi_body_for
+        else:
+            (lp,) = _nest(fi, 1)
         k = lp.target.id
         _full_range(r, fi, env, [lp], label, S)
-        tail_rets = [x for x in lib.returns_of(fi.node) if not any(x is n for n in ast.walk(lp))]
+        tail_rets = [x for x in lib.returns_of(fi.node) if not any(x is n for s_ in lp.body for n in ast.walk(s_))]
         if len(tail_rets) != 1:
             raise AnalysisError('%s: expected one return after the scan' % name)
         tv = tail_rets[0].value
